@@ -408,12 +408,9 @@ where
     }
 
     fn neighbors_range(&self, a: NodeIndex<Ix>) -> Range<usize> {
+        // `row` has `node_count() + 1` entries: indexing panics for a node that does not exist
         let index = self.row[a.index()];
-        let end = self
-            .row
-            .get(a.index() + 1)
-            .cloned()
-            .unwrap_or(self.column.len());
+        let end = self.row[a.index() + 1];
         index..end
     }
 
